@@ -4,6 +4,7 @@ import (
 	"bufio"
 	"fmt"
 	"io"
+	"math/big"
 	"os"
 	"os/exec"
 	"sort"
@@ -11,33 +12,46 @@ import (
 	"time"
 )
 
-// Solver: a portfolio of persistent SMT processes. The primary (z3 5.1.0, `z3-new -in`) gets every
-// query; a query it cannot decide within its time cap is retried on the secondaries (cvc5 1.0, z3 4.8.12),
-// which are started lazily and fed the whole base log first. Every query is wrapped in push/pop; shared
-// sub-terms are named constants asserted once at the base level.
+// Solver: a portfolio of persistent SMT processes.
+//
+// Primary (z3 5.1.0, `z3-new -in`): the conjuncts of the current path condition are kept asserted on a
+// stack of push levels; a query pops back to the common prefix of the previous path condition and pushes
+// only what is new, so consecutive queries (which mostly come from neighbouring program points of one
+// path) cost a few assertions each. Shared sub-terms are named constants defined in the scope that first
+// needs them; variables carry their range (bytes 0..255, digits, uint64 …) with their declaration.
+//
+// Secondaries (cvc5 1.0, z3 4.8.12): started lazily; get self-contained queries. Used when the primary
+// answers unknown/timeout (portfolio) and, in the thorough tier, to re-discharge assertion queries.
 type proc struct {
 	name string
 	cmd  *exec.Cmd
 	in   io.WriteCloser
 	out  *bufio.Reader
-	fed  int // bytes of the base log already sent
 	dead bool
 }
 
+type level struct {
+	term    *T
+	defined []int
+}
+
 type Solver struct {
-	procs   []*proc
-	time    time.Duration
-	count   int
-	unknown int
-	errors  []string
-	baseLog strings.Builder // declarations, definitions and permanent assertions
-	done    map[int]bool
-	base    map[int]bool // terms asserted permanently (byte ranges)
-	capMs   int
-	cross   bool // re-discharge assertion queries on a second solver
+	procs         []*proc
+	time          time.Duration
+	count         int
+	unknown       int
+	errors        []string
+	axioms        []*T // permanent assertions (uninterpreted-function axioms, environment assumptions)
+	axiomSet      map[int]bool
+	axiomsSent    int
+	stack         []level
+	local         map[int]bool // nodes/vars currently defined on the primary
+	capMs         int
+	cross         bool // re-discharge assertion queries on a second solver
 	disagreements int
 	crossChecked  int
-	trace   io.Writer
+	trace         io.Writer
+	bytesSent     int64
 }
 
 var solverSpecs = [][]string{
@@ -47,7 +61,7 @@ var solverSpecs = [][]string{
 }
 
 func newSolver() *Solver {
-	s := &Solver{done: map[int]bool{}, base: map[int]bool{}, capMs: 60000}
+	s := &Solver{axiomSet: map[int]bool{}, local: map[int]bool{}, capMs: 60000}
 	if v := os.Getenv("NEOSYM_SOLVER_TRACE"); v != "" {
 		f, _ := os.Create(v)
 		s.trace = f
@@ -92,9 +106,10 @@ func (s *Solver) send(p *proc, text string) []string {
 	if p.dead {
 		return []string{"(error \"solver not running\")"}
 	}
-	if s.trace != nil && p == s.procs[0] {
+	if s.trace != nil && (len(s.procs) == 0 || p == s.procs[0]) {
 		io.WriteString(s.trace, text+"\n")
 	}
+	s.bytesSent += int64(len(text))
 	io.WriteString(p.in, text+"\n(echo \"<<END>>\")\n")
 	var lines []string
 	for {
@@ -114,30 +129,13 @@ func (s *Solver) send(p *proc, text string) []string {
 	return lines
 }
 
-// sync brings a process up to date with the base log.
-func (s *Solver) sync(p *proc) {
-	log := s.baseLog.String()
-	if p.fed < len(log) {
-		ls := s.send(p, log[p.fed:])
-		for _, l := range ls {
-			if strings.HasPrefix(l, "(error") {
-				s.errors = append(s.errors, p.name+": "+l)
-			}
-		}
-		p.fed = len(log)
-	}
-}
-
-// assertBase asserts a constraint permanently.
+// assertBase adds a permanent assertion (asserted at level 0 of the primary before the next query).
 func (s *Solver) assertBase(c *T) {
-	if s.base[c.id] {
+	if s.axiomSet[c.id] || (c.isC() && c.b) {
 		return
 	}
-	var sb strings.Builder
-	n := emit(&sb, s.done, c)
-	fmt.Fprintf(&sb, "(assert %s)\n", n)
-	s.base[c.id] = true
-	s.baseLog.WriteString(sb.String())
+	s.axiomSet[c.id] = true
+	s.axioms = append(s.axioms, c)
 }
 
 func parseVerdict(lines []string) string {
@@ -151,26 +149,6 @@ func parseVerdict(lines []string) string {
 		}
 	}
 	return res
-}
-
-func (s *Solver) ask(p *proc, query string, names []string) (string, map[string]string) {
-	s.sync(p)
-	lines := s.send(p, query)
-	res := parseVerdict(lines)
-	model := map[string]string{}
-	if res == "sat" && len(names) > 0 {
-		// ask in chunks: very long get-value lines are slow to parse
-		for i := 0; i < len(names); i += 200 {
-			j := i + 200
-			if j > len(names) {
-				j = len(names)
-			}
-			ls := s.send(p, "(get-value ("+strings.Join(names[i:j], " ")+"))")
-			parseModel(strings.Join(ls, " "), model)
-		}
-	}
-	s.send(p, "(pop)")
-	return res, model
 }
 
 func parseModel(txt string, model map[string]string) {
@@ -190,35 +168,128 @@ func parseModel(txt string, model map[string]string) {
 	}
 }
 
-// check asserts the terms and returns sat/unsat/unknown/error plus values of the requested vars.
-// important: the query is an assertion/cover query (cross-checked in thorough tier), not a feasibility probe.
-func (s *Solver) check(cs []*T, want []*T) (string, map[string]string) {
-	return s.checkX(cs, want, false)
+// define emits (into q) declarations/definitions for everything below t that is not yet defined on the
+// primary and records what it defined.
+func (s *Solver) define(q *strings.Builder, defined *[]int, local map[int]bool, t *T) string {
+	switch t.op {
+	case "const":
+		if t.sort == 'B' {
+			if t.b {
+				return "true"
+			}
+			return "false"
+		}
+		if t.n.Sign() < 0 {
+			return "(- " + new(big.Int).Neg(t.n).String() + ")"
+		}
+		return t.n.String()
+	case "var":
+		nm := "|" + t.name + "|"
+		if !local[t.id] {
+			local[t.id] = true
+			*defined = append(*defined, t.id)
+			fmt.Fprintf(q, "(declare-const %s %s)\n", nm, sortName(t.sort))
+			if t.lo != nil {
+				fmt.Fprintf(q, "(assert (<= %s %s))\n", t.lo.String(), nm)
+			}
+			if t.hi != nil {
+				fmt.Fprintf(q, "(assert (<= %s %s))\n", nm, t.hi.String())
+			}
+		}
+		return nm
+	}
+	name := fmt.Sprintf("n%d", t.id)
+	if local[t.id] {
+		return name
+	}
+	args := make([]string, len(t.args))
+	for i, a := range t.args {
+		args[i] = s.define(q, defined, local, a)
+	}
+	local[t.id] = true
+	*defined = append(*defined, t.id)
+	fmt.Fprintf(q, "(declare-const %s %s)\n(assert (= %s (%s %s)))\n", name, sortName(t.sort), name, smtOp(t.op), strings.Join(args, " "))
+	return name
 }
 
-func (s *Solver) checkX(cs []*T, want []*T, important bool) (string, map[string]string) {
-	s.count++
-	var defs, q strings.Builder
-	q.WriteString("(push)\n")
-	for _, c := range cs {
-		if s.base[c.id] {
-			continue
+func (s *Solver) popTo(q *strings.Builder, k int) {
+	for i := len(s.stack) - 1; i >= k; i-- {
+		q.WriteString("(pop)\n")
+		for _, id := range s.stack[i].defined {
+			delete(s.local, id)
 		}
-		n := emit(&defs, s.done, c)
+	}
+	s.stack = s.stack[:k]
+}
+
+// check: is pc ∧ extras satisfiable? Returns sat/unsat/unknown/error plus values of the requested vars.
+func (s *Solver) check(pc *T, extras []*T, want []*T) (string, map[string]string) {
+	return s.checkX(pc, extras, want, false)
+}
+
+func (s *Solver) checkX(pc *T, extras []*T, want []*T, important bool) (string, map[string]string) {
+	s.count++
+	t0 := time.Now()
+	defer func() { s.time += time.Since(t0) }()
+	p := s.procs[0]
+	var q strings.Builder
+	if s.axiomsSent < len(s.axioms) { // new permanent assertions go to level 0
+		s.popTo(&q, 0)
+		var def []int
+		for _, a := range s.axioms[s.axiomsSent:] {
+			n := s.define(&q, &def, s.local, a)
+			fmt.Fprintf(&q, "(assert %s)\n", n)
+		}
+		s.axiomsSent = len(s.axioms)
+	}
+	sp := spine(pc)
+	k := 0
+	for k < len(s.stack) && k < len(sp) && s.stack[k].term == sp[k] {
+		k++
+	}
+	s.popTo(&q, k)
+	for _, c := range sp[k:] {
+		q.WriteString("(push)\n")
+		var def []int
+		n := s.define(&q, &def, s.local, c)
+		fmt.Fprintf(&q, "(assert %s)\n", n)
+		s.stack = append(s.stack, level{c, def})
+	}
+	q.WriteString("(push)\n")
+	var qdef []int
+	for _, c := range extras {
+		n := s.define(&q, &qdef, s.local, c)
 		fmt.Fprintf(&q, "(assert %s)\n", n)
 	}
 	var names []string
 	for _, w := range want {
-		names = append(names, emit(&defs, s.done, w))
+		names = append(names, s.define(&q, &qdef, s.local, w))
 	}
-	s.baseLog.WriteString(defs.String())
 	q.WriteString("(check-sat)\n")
-	t0 := time.Now()
-	defer func() { s.time += time.Since(t0) }()
-	res, model := s.ask(s.procs[0], q.String(), names)
+	lines := s.send(p, q.String())
+	res := parseVerdict(lines)
+	model := map[string]string{}
+	if res == "sat" && len(names) > 0 {
+		for i := 0; i < len(names); i += 200 {
+			j := i + 200
+			if j > len(names) {
+				j = len(names)
+			}
+			ls := s.send(p, "(get-value ("+strings.Join(names[i:j], " ")+"))")
+			parseModel(strings.Join(ls, " "), model)
+		}
+	}
+	s.send(p, "(pop)")
+	for _, id := range qdef {
+		delete(s.local, id)
+	}
+	if p.dead { // restart the primary for later queries
+		s.procs[0] = s.start(0)
+		s.stack, s.local, s.axiomsSent = nil, map[int]bool{}, 0
+	}
 	if res == "sat" || res == "unsat" {
 		if important && s.cross {
-			r2, _ := s.ask(s.secondary(1), q.String(), nil)
+			r2, _ := s.askStandalone(s.secondary(1), pc, extras, nil)
 			if r2 == "sat" || r2 == "unsat" {
 				s.crossChecked++
 				if r2 != res {
@@ -230,25 +301,57 @@ func (s *Solver) checkX(cs []*T, want []*T, important bool) (string, map[string]
 		}
 		return res, model
 	}
-	if s.procs[0].dead { // restart the primary for later queries
-		s.procs[0] = s.start(0)
-	}
 	// portfolio: retry on the other solvers
 	for i := 1; i < len(solverSpecs); i++ {
-		p := s.secondary(i)
-		if p.dead {
+		sec := s.secondary(i)
+		if sec.dead {
 			continue
 		}
-		r2, m2 := s.ask(p, q.String(), names)
+		r2, m2 := s.askStandalone(sec, pc, extras, want)
 		if r2 == "sat" || r2 == "unsat" {
 			return r2, m2
 		}
-		if p.dead {
+		if sec.dead {
 			s.procs[i] = nil
 		}
 	}
 	s.unknown++
 	return res, nil
+}
+
+// askStandalone sends a self-contained query (everything inside one push scope).
+func (s *Solver) askStandalone(p *proc, pc *T, extras []*T, want []*T) (string, map[string]string) {
+	var q strings.Builder
+	local := map[int]bool{}
+	var def []int
+	q.WriteString("(push)\n")
+	for _, a := range s.axioms {
+		fmt.Fprintf(&q, "(assert %s)\n", s.define(&q, &def, local, a))
+	}
+	fmt.Fprintf(&q, "(assert %s)\n", s.define(&q, &def, local, pc))
+	for _, c := range extras {
+		fmt.Fprintf(&q, "(assert %s)\n", s.define(&q, &def, local, c))
+	}
+	var names []string
+	for _, w := range want {
+		names = append(names, s.define(&q, &def, local, w))
+	}
+	q.WriteString("(check-sat)\n")
+	lines := s.send(p, q.String())
+	res := parseVerdict(lines)
+	model := map[string]string{}
+	if res == "sat" && len(names) > 0 {
+		for i := 0; i < len(names); i += 200 {
+			j := i + 200
+			if j > len(names) {
+				j = len(names)
+			}
+			ls := s.send(p, "(get-value ("+strings.Join(names[i:j], " ")+"))")
+			parseModel(strings.Join(ls, " "), model)
+		}
+	}
+	s.send(p, "(pop)")
+	return res, model
 }
 
 func (s *Solver) secondary(i int) *proc {
